@@ -113,8 +113,13 @@ MODES3 = '<<"Disabled", "FirstCheater", "AllCheaters">>'
 def c04_slices(tier):
     th = tier == "thorough"
     base = dict(KeyChoices="{3}", CoeffChoices="{5}", RandChoices="{1}", MsgA="<<104,105>>", MsgB="<<>>",
-                DomH3="{2,5}", DomH1="{1,5}", DomH2="{3}", Modes=MODES3, EMIT="TRUE")
+                DomH3="{2,5}", DomH1="{1,5}", DomH2="{3}", Modes=MODES3, MaxCheaters="99", EMIT="TRUE")
     sl = []
+    # S: size sweep: 2..10 signers (thorough: 16), up to two cheaters (+1 / -1: a cancelling pair) at every position
+    nmax = 16 if th else 10
+    sl.append(dict(name="S_size_sweep", module="C04", invariants=C04_INV, timeout=3000, consts=consts(
+        257, Shapes="{<<n,n>> : n \\in 2..%d}" % nmax, IdSets="{1..n : n \\in 2..%d}" % nmax, MaxExtra="0", Deltas="{1,256}",
+        Kinds='{"add"}', **dict(base, KeyChoices="{200}", DomH3="{77}", DomH1="{5}", DomH2="{100}", MaxCheaters="2"))))
     # A: every cheater subset x kind, three signers, all three modes
     sl.append(dict(name="A_subsets_kinds", module="C04", invariants=C04_INV, consts=consts(
         7, Shapes="{<<3,2>>}", IdSets="{{2,3,5}}", MaxExtra="1", Deltas="{1,6}" if not th else "1..6",
@@ -239,8 +244,14 @@ C07_INV = ["InvDkgOk", "InvOutputs", "InvSignOk", "InvSchnorr", "Emit"]
 
 def c07_slices(tier):
     th = tier == "thorough"
-    base = dict(RandChoices="{1}", Msg="<<104,105>>", DomH3="{2,5}", DomH1="{1,5}", DomH2="{3}", EMIT="TRUE")
+    base = dict(RandChoices="{1}", Msg="<<104,105>>", DomH3="{2,5}", DomH1="{1,5}", DomH2="{3}", SweepSigners="FALSE", EMIT="TRUE")
     sl = []
+    # S: shape sweep: every (n, t) up to n = 8 (thorough: 12); the t smallest / largest identifiers sign
+    nmax = 12 if th else 8
+    sl.append(dict(name="S_shape_sweep", module="C07", invariants=C07_INV, timeout=3000, consts=consts(
+        13, Shapes="{sh \\in (2..%d) \\X (2..%d) : sh[2] <= sh[1]}" % (nmax, nmax), IdSets="{1..n : n \\in 2..%d}" % nmax,
+        A0Choices="{7}", CoeffChoices="{3}", KChoices="{2}", MaxExtra="0", DomHDKG="{4}",
+        **dict(base, DomH3="{4}", DomH1="{3}", DomH2="{5}", SweepSigners="TRUE"))))
     # A: identifier sets (non-contiguous; own id smallest/largest), two polynomials per participant
     sl.append(dict(name="A_ids", module="C07", invariants=C07_INV, consts=consts(
         7, Shapes="{<<2,2>>, <<3,2>>, <<3,3>>}", IdSets="{{3,5}, {1,2,3}, {2,5,6}, {1,4,6}}",
@@ -350,8 +361,14 @@ ALLSCEN = '{"ok","small","unknown","tchange","nonzero","onelen"}'
 def c10_slices(tier):
     th = tier == "thorough"
     base = dict(RandChoices="{1}", Msg="<<104,105>>", DomH3="{2,5}", DomH1="{1,5}", DomH2="{3}", DomHDKG="{4}",
-                KChoices="{2}", EMIT="TRUE")
+                KChoices="{2}", Sweep="FALSE", EMIT="TRUE")
     sl = []
+    # S: shape sweep: every (n, t) up to n = 7 (thorough: 10), both procedures, everybody / all but the largest remain
+    nmax = 10 if th else 7
+    sl.append(dict(name="S_shape_sweep", module="C10", invariants=C10_INV, timeout=3000, consts=consts(
+        13, Shapes="{sh \\in (2..%d) \\X (2..%d) : sh[2] <= sh[1]}" % (nmax, nmax), IdSets="{1..n : n \\in 2..%d}" % nmax,
+        KeyChoices="{7}", CoeffChoices="{3}", Procs='{"dealer","dkg"}', Scenarios='{"ok"}', RCoeffChoices="{2}", Rounds="1",
+        MaxExtra="0", **dict(base, DomH3="{4}", DomH1="{3}", DomH2="{5}", Sweep="TRUE"))))
     # A: every remaining set, both procedures, all scenarios, every old/new mix
     sl.append(dict(name="A_sets_mixes", module="C10", invariants=C10_INV, consts=consts(
         7, Shapes="{<<3,2>>}", IdSets="{{2,3,5}}", KeyChoices="{3}", CoeffChoices="{5}", Procs='{"dealer","dkg"}',
@@ -383,8 +400,14 @@ C11_INV = ["InvDeltaSum", "InvRepairOk", "InvRepaired", "InvRefused", "InvSignOk
 
 def c11_slices(tier):
     th = tier == "thorough"
-    base = dict(RandChoices="{1}", Msg="<<104,105>>", DomH3="{2,5}", DomH1="{1,5}", DomH2="{3}", EMIT="TRUE")
+    base = dict(RandChoices="{1}", Msg="<<104,105>>", DomH3="{2,5}", DomH1="{1,5}", DomH2="{3}", Sweep="FALSE", EMIT="TRUE")
     sl = []
+    # S: shape sweep: every (n, t) up to n = 9 (thorough: 12): t or n-1 helpers (even and odd counts) repair the largest
+    nmax = 12 if th else 9
+    sl.append(dict(name="S_shape_sweep", module="C11", invariants=C11_INV, timeout=3000, consts=consts(
+        13, Shapes="{sh \\in (3..%d) \\X (2..%d) : sh[2] < sh[1]}" % (nmax, nmax), IdSets="{1..n : n \\in 3..%d}" % nmax,
+        KeyChoices="{7}", CoeffChoices="{3}", DeltaChoices="{4}", NewIds="{}", Scenarios='{"ok"}', MaxExtraH="12",
+        **dict(base, DomH3="{4}", DomH1="{3}", DomH2="{5}", Sweep="TRUE"))))
     # A: every helper set and target (existing or new), all keys/polynomials, two blinding values
     sl.append(dict(name="A_sets_values", module="C11", invariants=C11_INV, consts=consts(
         7, Shapes="{<<3,2>>, <<4,2>>}" if th else "{<<3,2>>}", IdSets="{{2,3,5}, {1,2,4,6}}", KeyChoices="{1,3,6}",
